@@ -57,7 +57,7 @@ def configs(tier):
         out.append(dict(region=region, layout="legacy", uo="cm", us="cm", n=1, nopos="other"))
     out.append(dict(region="box", layout="mesh-only", uo="cm", us="au", n=1, nopos="same", us_y="cm", us_z="m", _split=3))
     if tier != "quick":
-        out.append(dict(region="sphere", layout="loader", uo="au", us="pc", n=3, nopos="same"))
+        out.append(dict(region="sphere", layout="loader", uo="au", us="pc", n=3, nopos="same", _split=4))
     return out
 
 
